@@ -52,7 +52,13 @@ def make_stream(rng, small=False, marks=None):
             if c is not None:
                 parts.append(c)
                 continue
-        if kk < 0.30:  # length field lies about the enclosed size; trailer valid for the bytes present
+        if kk < 0.27:  # a valid frame whose payload is itself a complete valid frame (number 0xD30..)
+            inner = refcrc.frame(streams.rand_defined_payload(rng) if rng.random() < 0.5
+                                 else streams.rand_unknown_payload(rng, rng.randint(2, 30)))
+            if len(inner) <= 1023:
+                parts.append(refcrc.frame(inner))
+                continue
+        if kk < 0.32:  # length field lies about the enclosed size; trailer valid for the bytes present
             fr, a, d = streams.length_lie(rng)
             if marks is not None:
                 marks.append(("length-lie", sum(len(x) for x in parts), (a, d)))
@@ -305,7 +311,7 @@ def run(ctx):
                     run_case(ctx, data, {q: ["short", j], q + 1: ["short", a - j], q + 2: "empty"}, mode, 0, True, "directed")
                 ctx.hit("directed_double_faults")
     # (b) random fault mixes on bigger streams, all modes
-    for _ in range(ctx.n(4000, 80000)):
+    for _ in range(ctx.n(2500, 80000)):
         data, foreign = make_stream(rng)
         ncalls = count_calls(data)
         for mode in (0, 1, 2):
@@ -314,7 +320,7 @@ def run(ctx):
                     for _ in range(k)}
             run_case(ctx, data, plan, mode, rng.getrandbits(16), foreign, "mix")
     # (b2) socket-backed reader with timeouts / OS errors between segments
-    for _ in range(ctx.n(1500, 40000)):
+    for _ in range(ctx.n(1000, 40000)):
         data, _f = make_stream(rng, small=rng.random() < 0.5)
         sched = []
         left = len(data)
